@@ -239,6 +239,11 @@ def write_external_catalogue(cat_rows, fname, how):
     t = Table()
     for c in EXT_COLS:
         t[c] = [float(unf(r[c])) for r in cat_rows]
+    if how == 'zeroerr':
+        # a table from another tool whose uncertainty columns are filled with zeros ("not measured"): 0 is neither positive nor the
+        # -1 marker, so an uncertainty that is copied to the output must come out as -1
+        for c in ('err_ra', 'err_dec', 'err_peak_flux', 'err_int_flux', 'err_a', 'err_b', 'err_pa'):
+            t[c] = [0.0] * len(cat_rows)
     if how == 'masked':
         t['island'] = [int(r['island']) for r in cat_rows]
         t['source'] = [int(r['source']) for r in cat_rows]
